@@ -91,8 +91,10 @@ fn main() {
                 "topo" => scen_topo::run(seed, tier, &mut out),
                 "parse" => scen_parse::run(seed, tier, &mut out),
                 "roundtrip" => scen_parse::run_rt(seed, tier, &mut out),
+                "fsweep" => scen_parse::run_fsweep(tier, &mut out),
                 "loops" => scen_loops::run(seed, tier, &mut out),
                 "run" => scen_prog::run_runs(seed, tier, &mut out),
+                "runt" => scen_prog::run_timeouts(seed, tier, &mut out),
                 "growth" => scen_prog::run_growth(seed, tier, &mut out),
                 "buf" => scen_buf::run(seed, tier, &mut out),
                 "buf-exh" => {
